@@ -269,7 +269,13 @@ func (e *Engine) noteHeapKey(key string, so *Sort) {
 // ---------------------------------------------------------------------------
 // Locations: load / store of typed values through pointers
 
-func (e *Engine) rootKey(t types.Type) string { return typeKey(t) }
+func (e *Engine) rootKey(t types.Type) string {
+	// array objects share the heap arrays of slice backing stores
+	if at, ok := t.Underlying().(*types.Array); ok {
+		return typeKey(types.NewSlice(at.Elem()))
+	}
+	return typeKey(t)
+}
 
 // pathSuffix computes the heap key suffix and index list of a pointer path.
 func (e *Engine) pathSuffix(p PtrV) (string, []Term) {
